@@ -563,3 +563,50 @@ func (e *integEngine) checkC11Shared() {
 		}
 	}
 }
+
+// checkC01Shared: stages sharing one task (executions told apart by goroutine): no command of a
+// stage starts before every command of every stage it depends on has ended.
+func (e *integEngine) checkC01Shared() {
+	c := e.c
+	first := map[string]int{}
+	last := map[string]int{}
+	for _, r := range e.execs {
+		who := e.pl.identity(r.Info.GID)
+		if who == "" {
+			continue
+		}
+		if _, ok := first[who]; !ok {
+			first[who] = r.StartSeq
+		}
+		end := r.EndSeq
+		if end < 0 {
+			end = 1 << 30
+		}
+		if end > last[who] {
+			last[who] = end
+		}
+	}
+	for _, g := range e.w.AllGraphs() {
+		for _, s := range g.Stages {
+			fs, ran := first[s.Name]
+			if !ran {
+				continue
+			}
+			for _, dn := range s.Deps {
+				d := g.Stage(dn)
+				if d == nil || d.Nested != nil || d.Cond != "" {
+					continue
+				}
+				if _, ok := first[dn]; !ok {
+					c.Violate("C01", "start-before-dep-real-runner", "stage %s of %s started its first command (seq %d) although its dependency %s has executed nothing", s.Name, g.Name, fs, dn)
+					return
+				}
+				if fs < last[dn] {
+					c.Violate("C01", "start-before-dep-real-runner", "stage %s of %s started its first command (seq %d) before its dependency %s had finished its last one (seq %d)", s.Name, g.Name, fs, dn, last[dn])
+					return
+				}
+				c.Count("c01_shared_task_edges_checked")
+			}
+		}
+	}
+}
